@@ -143,7 +143,14 @@ pub fn group(req: &str) -> String {
             sdeps.insert(p.clone(), json!(d.collect::<Vec<_>>()));
         }
         if let Ok(d) = g.inline_script_module_names(p) {
-            inline.insert(p.clone(), json!(d.collect::<Vec<_>>()));
+            let names: Vec<String> = d.map(|x| x.to_string()).collect();
+            let mut m = serde_json::Map::new();
+            for n in names.iter() {
+                if let Ok(c) = g.inline_script_content(p, n) {
+                    m.insert(n.clone(), json!(c));
+                }
+            }
+            inline.insert(p.clone(), Value::Object(m));
         }
         strs.insert(p.clone(), json!(g.stringify_tmpl(p)));
     }
